@@ -179,7 +179,12 @@ class Characteristics:
     @adc_voltage_range.setter
     def adc_voltage_range(self, value: tuple[float, float]) -> None:
         """Set voltage range of the Analog-Digital Converter."""
-        self._adc_voltage_range = value
+        if len(value) != 2:
+            raise ValueError("Voltage range must have length of 2.")
+
+        # Force 'adc_voltage_range' to be a tuple of 2 elements
+        start_volt, end_volt = value
+        self._adc_voltage_range = (start_volt, end_volt)
 
     @property
     def full_well_capacity(self) -> float:
